@@ -19,7 +19,8 @@ Documented anchor rule (laythe_vm/src/compiler/mod.rs, peephole.rs):
   `raise e`                 -> the last token of the raised expression (`raise.end()`)
   `a + b`                   -> the last token of `b`;   `x.p` -> `p`;   `x[i]` -> the last token of `i`
   `for v in it`             -> the last token of `it` (IterNext / IterCurrent)
-  a catch clause that declines the error runs ContinueUnwind on the line of its closing brace.
+  a catch clause that declines the error runs ContinueUnwind on the line of its closing brace (the frame's own ip
+  stays there; no report shows it since print_error reads the ips saved by pause_unwind — repaired D181).
 
 Shapes that cross natives (nested interpreter loops) are all in scope: errors and exit() inside the callbacks of
 each/map/reduce/any/all/filter/for-in/call()/print->str()/List.sort (comparator), a try in the very frame that
@@ -316,6 +317,7 @@ def walk(plan, stop_at=None):
     res["outcome"] = "uncaught"
     if declined:
         res["declined_before_uncaught"] = declined[-1]
+        res["declined_list"] = declined
     return res
 
 
@@ -324,7 +326,8 @@ def final_outcome(plan):
 
 
 def sanitize(plan):
-    """Keep the plan well formed and outside the signature of the one known finding that is still open (D181)."""
+    """Keep the plan well formed.  No shape is avoided: an unhandled error that passed declining catch clauses
+    (the repaired D181) is generated like every other outcome."""
     frames, final = plan["frames"], plan["final"]
     n = len(frames)
     for j, f in enumerate(frames):
@@ -344,13 +347,6 @@ def sanitize(plan):
             if h["action"] in ("wrap", "wrapnoinner", "wrapsub") and not h.get("msg"):
                 h["msg"] = "outer %d" % j
                 h.setdefault("cls", "Error")
-    for _ in range(60):
-        sim = walk(plan)
-        if sim["declined_before_uncaught"] is None:
-            break
-        # D181 (open): an unhandled error that passed a declining catch clause
-        c, t = sim["declined_before_uncaught"]
-        handlers_of(frames[c])[t]["filter"] = None
     return plan
 
 
@@ -825,8 +821,16 @@ def features(plan):
             d["filter_%s" % h["filter"]] = d.get("filter_%s" % h["filter"], 0) + 1
     if any(f.get("lib") for f in fr):
         d["second_module"] = 1
-    # the shapes of the repaired findings (D182–D185, D1) — in scope, counted for the evidence
+    # the shapes of the repaired findings (D181–D185, D1) — in scope, counted for the evidence
     sim = walk(plan)
+    dl = sim.get("declined_list")
+    if dl:
+        d["uncaught_after_declined_catch"] = 1
+        d["uncaught_after_%d_declined" % min(len(dl), 3)] = 1
+        if len({c for c, _ in dl}) < len(dl):
+            d["uncaught_after_two_declined_in_one_frame"] = 1
+        if any(fr[j]["kind"] in NATIVE_CALLBACK_KINDS for c, _ in dl for j in range(c + 1, len(fr))):
+            d["uncaught_declined_below_native_callback"] = 1
     raises = err_chain_of_final(plan["final"])[0] is not None
     for c in sim["exit_frames"]:
         k = sum(1 for j in range(1, c + 1) if fr[j]["kind"] in NATIVE_CALLBACK_KINDS)
